@@ -54,7 +54,7 @@ static J gen_c12 (uint64_t seed, uint64_t idx)
 	if (!plain_encoding (*fp) || fp->major == SF_FORMAT_SDS || fp->major == SF_FORMAT_VOC || needs_path_route (*fp)) fp = main [idx % main.size ()] ;
 	const Fmt &f = *fp ;
 	int rate = g.pick_rate (f, false) ;
-	int ch = g.rng.pick<int> ({ 1, 1, 2, 2, 4, 6 }) ; if (!valid_channels (f, ch, rate)) ch = g.pick_channels (f, rate) ; if (ch > 8) ch = valid_channels (f, 2, rate) ? 2 : 1 ;
+	int ch = g.rng.pick<int> ({ 1, 1, 2, 2, 3, 4, 5, 6, 7, 8 }) ; if (!valid_channels (f, ch, rate)) ch = g.pick_channels (f, rate) ; if (ch > 8) ch = valid_channels (f, 2, rate) ? 2 : 1 ;
 	J &cfg = plan ["cfg"] ;
 	cfg ["fmt"] = f.name ; cfg ["ch"] = ch ; cfg ["sr"] = rate ; cfg ["route"] = g.pick_route (f, true) ;
 	std::vector<int> Ts ; for (int T = 0 ; T < 4 ; T++) if (lossless_lowzero (f, T) >= 0) Ts.push_back (T) ;
@@ -79,7 +79,14 @@ static J gen_c12 (uint64_t seed, uint64_t idx)
 			m4 [] = { SF_CHANNEL_MAP_LEFT, SF_CHANNEL_MAP_RIGHT, SF_CHANNEL_MAP_REAR_LEFT, SF_CHANNEL_MAP_REAR_RIGHT },
 			m6 [] = { SF_CHANNEL_MAP_LEFT, SF_CHANNEL_MAP_RIGHT, SF_CHANNEL_MAP_CENTER, SF_CHANNEL_MAP_LFE, SF_CHANNEL_MAP_REAR_LEFT, SF_CHANNEL_MAP_REAR_RIGHT } ;
 		const int *m = ch == 1 ? m1 : ch == 2 ? m2 : ch == 4 ? m4 : ch == 6 ? m6 : nullptr ;
-		if (m && g.rng.chance (0.8)) for (int k = 0 ; k < ch ; k++) codes.push (m [k]) ;
+		// every layout the library's own table lists for this channel count (generated from chanmap.c at build time)
+		struct Layout { int n ; int codes [8] ; } ;
+		static const Layout k_layouts [] = {
+#include "layouts.inc"
+			{ 0, { 0 } } } ;
+		std::vector<const Layout *> fit ; for (auto &l : k_layouts) if (l.n == ch) fit.push_back (&l) ;
+		if (!fit.empty () && g.rng.chance (0.6)) { const Layout *l = g.rng.pick (fit) ; for (int k = 0 ; k < ch ; k++) codes.push (l->codes [k]) ; }
+		else if (m && g.rng.chance (0.8)) for (int k = 0 ; k < ch ; k++) codes.push (m [k]) ;
 		if (codes.size ()) c ["codes"] = codes ; else c ["stream"] = (long long) g.rng.below (100000) ;
 		sets.push_back (c) ;
 	}
@@ -166,7 +173,8 @@ static Verdict check_c12 (const J &plan)
 				bool ok = kv.first == SF_STR_SOFTWARE ? got.compare (0, std::min<size_t> (kv.second.size (), 127), kv.second, 0, std::min<size_t> (kv.second.size (), 127)) == 0 : got == kv.second ;
 				if (!ok) for (auto &alt : str_alt [kv.first]) if (got == alt || (kv.first == SF_STR_SOFTWARE && alt != "\x01<absent>" && got.compare (0, std::min<size_t> (alt.size (), 127), alt, 0, std::min<size_t> (alt.size (), 127)) == 0)) ok = true ;
 				bool hi = false ; for (unsigned char c : kv.second) if (c >= 0x80) hi = true ;
-				if (!ok) { finding (v, "C12", "roundtrip.string", "type" + std::to_string (kv.first) + (got == "\x01<absent>" ? ":absent" : ":differs") + (hi ? "+utf8" : "") + (str.size () + str_alt.size () > 4 ? "+many" : "") + (plan.at ("tasks") [0].at ("ops") [0].gets ("mode") == "rw" ? "+rdwr" : ""), "string type " + std::to_string (kv.first) + " (" + std::to_string (kv.second.size ()) + " bytes) set before the audio reads back as '" + got.substr (0, 60) + "'") ; break ; }
+				bool late_replace = false ; for (auto &alt : str_alt [kv.first]) if (alt != "\x01<absent>") late_replace = true ;		// set before the audio and again after it
+				if (!ok) { finding (v, "C12", "roundtrip.string", "type" + std::to_string (kv.first) + (got == "\x01<absent>" ? ":absent" : ":differs") + (late_replace ? "+late_replace" : "") + (hi ? "+utf8" : "") + (str.size () + str_alt.size () > 4 ? "+many" : "") + (plan.at ("tasks") [0].at ("ops") [0].gets ("mode") == "rw" ? "+rdwr" : ""), "string type " + std::to_string (kv.first) + " (" + std::to_string (kv.second.size ()) + " bytes) set before the audio reads back as '" + got.substr (0, 60) + "'") ; break ; }
 				v.probes ["strings_compared"] ++ ;
 			}
 		}
@@ -391,6 +399,13 @@ static J gen_c18 (uint64_t seed, uint64_t idx)
 		int64_t n = g.pick_frames (B, ch, (g.rng.chance (0.25) ? 14000 : 4000) / ch + 2) ;		// some single calls span several staging buffers
 		w ["n"] = (long long) n ; N += n ; ops.push (w) ;
 		if (part_a && has_header (f) && g.rng.chance (0.1)) { J c = mkop ("cmd") ; c ["id"] = "update_header" ; ops.push (c) ; }
+		// the writer may go back and overwrite a stretch (the PEAK bookkeeping then runs at a position that is not the end of the file)
+		if (part_a && N > 4 && g.rng.chance (0.15))
+		{	int64_t tgt = (int64_t) g.rng.below ((uint64_t) N - 1), m = g.rng.range (1, std::min<int64_t> (N - tgt, 24)) ;
+			J s1 = mkop ("seek") ; s1 ["off"] = (long long) tgt ; s1 ["whence"] = 0 ; ops.push (s1) ;
+			J w2 = mkop ("write") ; w2 ["T"] = stype_name (T) ; w2 ["fr"] = 1 ; w2 ["n"] = (long long) m ; ops.push (w2) ;
+			J s2 = mkop ("seek") ; s2 ["off"] = 0 ; s2 ["whence"] = 2 ; ops.push (s2) ;
+		}
 	}
 	ops.push (mkop ("close")) ;
 	{ J o = mkop ("open") ; o ["mode"] = "r" ; ops.push (o) ; }
@@ -473,7 +488,8 @@ static Verdict check_c18 (const J &plan)
 		int64_t item = 0, frame = 0 ; bool any = false ; int ties = 0 ;
 		const J &ops = plan.at ("tasks") [0].at ("ops") ;
 		for (size_t k = 0 ; k < ops.size () && k < r.transcript [0].size () ; k++)
-		{	if (ops [k].gets ("op") != "write" || r.transcript [0][k].skipped) continue ;
+		{	if (ops [k].gets ("op") == "seek" && !r.transcript [0][k].skipped && r.transcript [0][k].ret >= 0) { frame = r.transcript [0][k].ret ; continue ; }
+			if (ops [k].gets ("op") != "write" || r.transcript [0][k].skipped) continue ;
 			int T = stype_from (ops [k].gets ("T")) ; int64_t n = ops [k].geti ("n") ;
 			if (r.transcript [0][k].ret != (ops [k].geti ("fr") ? n : n * ch)) return v ;		// write refused: nothing to check
 			for (int64_t i = 0 ; i < n * ch ; i++)
